@@ -7,6 +7,10 @@ package curator
 //   op 2: weightedRand with the random values it consumed   (functional)
 //   op 3: buildReverseIndex                                  (functional, canonicalised)
 //   op 4: refreshStatus' candidate set                        (functional)
+//   op 5: RackBasedFailureDomain.GetFailureDomain on a host name (functional, byte level)
+// In a quarter of the cases the monitor is built over the REAL RackBasedFailureDomain with host names written by
+// the "XXYYDD" convention (racks with the same letters under different clusters); the model is then handed the
+// ground-truth chains (physical rack / cluster numbers), not what the service returned.
 
 import (
 	"fmt"
@@ -94,6 +98,124 @@ func c17genTopology(r *vw.Rng, nested bool) []c17host {
 	return hosts
 }
 
+var c17clusters = []string{"bb", "gg", "cc", "bg"}
+var c17racks = []string{"aa", "ab", "ba", "a", "abc"}
+
+// c17genNamed: hosts named cluster+rack+digits; chain = ground truth (host, physical rack, cluster).
+func c17genNamed(r *vw.Rng) ([]c17host, map[int64]string) {
+	nh := r.PickInt(2, 3, 4, 5, 6, 8, 10, 12, 15, 20, 25, 30)
+	ncl := r.PickInt(1, 2, 2, 3, 3, 4)
+	nrk := r.PickInt(1, 2, 2, 3, 3, 4, 5)
+	hosts := make([]c17host, 0, nh)
+	names := map[int64]string{}
+	used := map[string]bool{}
+	skew := r.Chance(1, 2)
+	for len(hosts) < nh {
+		ci, ri := r.Intn(ncl), r.Intn(nrk)
+		if skew && r.Chance(2, 3) {
+			ci, ri = 0, 0
+		}
+		name := c17clusters[ci] + c17racks[ri] + fmt.Sprintf("%02d", r.Intn(60))
+		if r.Chance(1, 10) {
+			name = c17clusters[ci] + c17racks[ri] + fmt.Sprintf("%d", r.Intn(2000))
+		}
+		if used[name] {
+			continue
+		}
+		used[name] = true
+		i := len(hosts)
+		h := c17host{addr: int64(i + 1), id: core.TractserverID(100 + i)}
+		h.chain = []int64{h.addr, int64(100000 + ci*10 + ri + 1), int64(200000 + ci + 1)}
+		names[h.addr] = name
+		hosts = append(hosts, h)
+	}
+	return hosts, names
+}
+
+func c17bytes(s string) []int64 {
+	out := make([]int64, len(s))
+	for i := 0; i < len(s); i++ {
+		out[i] = int64(s[i])
+	}
+	return out
+}
+
+// c17letters / c17isDigits: the two halves of a convention name, computed independently of the code under test.
+func c17split(name string) (string, string) {
+	i := len(name)
+	for i > 0 && name[i-1] >= '0' && name[i-1] <= '9' {
+		i--
+	}
+	return name[:i], name[i:]
+}
+
+func c17randName(r *vw.Rng) string {
+	switch r.Intn(10) {
+	case 0: // malformed: arbitrary bytes, digits inside, no digits, only digits, empty, non-ASCII
+		n := r.PickInt(0, 1, 2, 3, 5, 8)
+		b := make([]byte, n)
+		for i := range b {
+			b[i] = byte(r.PickInt('0', '9', 'a', 'z', 'A', '-', '.', '5', 0xc3, 0xa9, ' '))
+		}
+		return string(b)
+	case 1:
+		return fmt.Sprintf("%d", r.Intn(100000))
+	case 2:
+		return c17clusters[r.Intn(len(c17clusters))]
+	case 3:
+		return "a" + fmt.Sprintf("%d", r.Intn(10)) + "b" + fmt.Sprintf("%d", r.Intn(100))
+	default:
+		return c17clusters[r.Intn(len(c17clusters))] + c17racks[r.Intn(len(c17racks))] + fmt.Sprintf("%02d", r.Intn(100))
+	}
+}
+
+// c17domainOps: op 5 on generated names + the model-free uniqueness/nesting monitor.
+func c17domainOps(r *vw.Rng, tr *vw.Trace, ci int) {
+	n := r.Range(2, 6)
+	names := make([]string, n)
+	for i := range names {
+		names[i] = c17randName(r)
+	}
+	got := RackBasedFailureDomain{}.GetFailureDomain(names)
+	okShape := len(got) == n
+	for i := 0; okShape && i < n; i++ {
+		okShape = len(got[i]) == 3 && got[i][0] == names[i]
+	}
+	if !okShape {
+		vw.Report(vw.Violation{Property: "C17", Signature: "failure-domain-chain-shape", Case: fmt.Sprint(ci),
+			What:   "GetFailureDomain did not return one {host, rack, cluster} chain per host, host first",
+			Detail: map[string]interface{}{"hosts": names, "got": fmt.Sprint(got)}})
+		return
+	}
+	for i, nm := range names {
+		var op, obs vw.L
+		op.Add(5)
+		op.Add(c17bytes(nm)...)
+		obs.AddList(c17bytes(got[i][1]))
+		obs.AddList(c17bytes(got[i][2]))
+		tr.Op(op...)
+		tr.Obs(obs...)
+		vw.Stat("gfd.names", 1)
+	}
+	for i := 0; i < n; i++ {
+		for j := i + 1; j < n; j++ {
+			li, _ := c17split(names[i])
+			lj, _ := c17split(names[j])
+			sameRack := got[i][1] == got[j][1]
+			if (li == lj) != sameRack {
+				vw.Report(vw.Violation{Property: "C17", Signature: "rack-domain-name-not-globally-unique", Case: fmt.Sprint(ci),
+					What:   "two hosts of different physical racks got the same rack-level failure domain (or two hosts of one rack different ones)",
+					Detail: map[string]interface{}{"host1": names[i], "host2": names[j], "chain1": got[i], "chain2": got[j]}})
+			}
+			if sameRack && got[i][2] != got[j][2] {
+				vw.Report(vw.Violation{Property: "C17", Signature: "failure-domains-not-nested", Case: fmt.Sprint(ci),
+					What:   "one rack-level failure domain lies in two cluster-level domains",
+					Detail: map[string]interface{}{"host1": names[i], "host2": names[j], "chain1": got[i], "chain2": got[j]}})
+			}
+		}
+	}
+}
+
 func TestVerifC17(t *testing.T) {
 	if !vw.Enabled() {
 		t.Skip("verification harness: run through /verif/bin/check")
@@ -116,22 +238,48 @@ func TestVerifC17(t *testing.T) {
 		}
 		r := root.Fork(uint64(ci))
 		tr.Case(fmt.Sprintf("%d", ci))
+		named := r.Chance(1, 4)
 		nested := !r.Chance(15, 100)
-		hosts := c17genTopology(r, nested)
-
+		var hosts []c17host
+		var hostName map[int64]string
+		hostNum := map[string]int64{}
+		var svc FailureDomainService
 		fds := &c17fds{m: map[string][]string{}}
-		for _, h := range hosts {
-			ch := make([]string, len(h.chain))
-			for i, d := range h.chain {
-				ch[i] = c17name(d)
+		if named {
+			hosts, hostName = c17genNamed(r)
+			for a, nm := range hostName {
+				hostNum[nm] = a
 			}
-			fds.m[c17name(h.addr)] = ch
+			svc = RackBasedFailureDomain{}
+			vw.Stat("topo.named", 1)
+		} else {
+			hosts = c17genTopology(r, nested)
+			for _, h := range hosts {
+				ch := make([]string, len(h.chain))
+				for i, d := range h.chain {
+					ch[i] = c17name(d)
+				}
+				fds.m[c17name(h.addr)] = ch
+			}
+			svc = fds
+		}
+		nameOf := func(a int64) string {
+			if named {
+				return hostName[a]
+			}
+			return c17name(a)
+		}
+		numOf := func(s string) int64 {
+			if named {
+				return hostNum[s]
+			}
+			return c17num(s)
 		}
 
 		base := int64(1000) * int64(time.Second)
 		clock := base
 		getTime := func() time.Time { return time.Unix(0, clock) }
-		mon := newTractserverMonitor(&cfg, fds, getTime)
+		mon := newTractserverMonitor(&cfg, svc, getTime)
 		c := &Curator{config: &cfg, tsMon: mon}
 
 		// decide "now" and each host's state relative to it
@@ -188,7 +336,7 @@ func TestVerifC17(t *testing.T) {
 		}
 		for _, b := range beats {
 			clock = b.at
-			mon.recvHeartbeat(b.h.id, c17name(b.h.addr), core.TractserverLoad{AvailSpace: b.h.avail, TotalSpace: b.h.avail + 1000})
+			mon.recvHeartbeat(b.h.id, nameOf(b.h.addr), core.TractserverLoad{AvailSpace: b.h.avail, TotalSpace: b.h.avail + 1000})
 		}
 		clock = now
 		// refresh status as of now (heartbeat handlers and status queries do this in production)
@@ -222,7 +370,7 @@ func TestVerifC17(t *testing.T) {
 			idx := mon.getFailureDomainToFreeTS()
 			if len(idx) > 0 {
 				for k := range idx[0] {
-					got = append(got, c17num(k))
+					got = append(got, numOf(k))
 				}
 			}
 			sort.Slice(got, func(i, j int) bool { return got[i] < got[j] })
@@ -278,8 +426,8 @@ func TestVerifC17(t *testing.T) {
 					okIDs = false
 				}
 				for i, s := range addrs {
-					res = append(res, c17num(s))
-					if okIDs && int64(ids[i]) != 100+c17num(s)-1 {
+					res = append(res, numOf(s))
+					if okIDs && int64(ids[i]) != 100+numOf(s)-1 {
 						okIDs = false
 					}
 				}
@@ -310,8 +458,11 @@ func TestVerifC17(t *testing.T) {
 			}
 		}
 
+		// op 5: the real failure-domain service on generated names
+		c17domainOps(r, tr, ci)
+
 		// op 3: buildReverseIndex on the raw chains (any order, possibly ragged in the malformed stream)
-		{
+		if !named {
 			perm := r.Perm(len(hosts))
 			var chains [][]string
 			var op vw.L
